@@ -26,7 +26,7 @@ for i in range(workers):
 def check(wt, pid):
     r = subprocess.run([BIN, '-prop', pid, '-tier', 'quick', '-repo', wt, '-out', '/dev/null', '-known', f'{V}/known_findings.json',
                         '-replay-dir', f'/tmp/parreplay-{os.path.basename(wt)}'], capture_output=True, text=True, env=env, cwd=V)
-    reports = [l.strip()[:200] for l in r.stdout.splitlines() if l.strip().startswith('report[')]
+    reports = [l.strip() for l in r.stdout.splitlines() if l.strip().startswith('report[')]
     return r.returncode, reports
 
 def job(d):
@@ -42,7 +42,7 @@ def job(d):
             return name, 'patch does not apply', []
         if mode == 'seeds':
             rc, reports = check(wt, meta['property'])
-            return name, ('caught' if rc == 1 else f'MISSED (exit {rc})'), reports[:2]
+            return name, ('caught' if rc == 1 else f'MISSED (exit {rc})'), reports[:4]
         alarms, reps = [], []
         for pid in props:
             rc, reports = check(wt, pid)
@@ -58,15 +58,44 @@ only = sys.argv[3:]
 if only:
     dirs = [d for d in dirs if os.path.basename(d) in only or os.path.basename(d).split('-')[0] in only]
 good = bad = 0
+rows = []
 with cf.ThreadPoolExecutor(workers) as ex:
     for name, status, reps in ex.map(job, dirs):
         ok = status in ('caught', 'silent', 'obsolete')
         good += ok; bad += (not ok)
+        rows.append((name, status, reps))
         if not ok or os.environ.get('VERBOSE'):
             print(name, status, flush=True)
             for r in reps[:4]:
-                print('    ', r, flush=True)
+                print('    ', r[:200], flush=True)
 print(f'{mode}: {good} as expected, {bad} not', flush=True)
+if os.environ.get('WRITE') and not only:
+    import re
+    if mode == 'harmless':
+        # same lines as tools/harmless_report.sh
+        with open(f'{V}/harmless/RESULTS.txt', 'w') as f:
+            for name, status, reps in rows:
+                f.write(f'{name} silent\n' if status == 'silent' else f"{name} {status.replace('ALARM ', '')}  :: {len(reps)} reports\n")
+    else:
+        # same files as tools/seed_report.py
+        initial = json.load(open(f'{V}/seeded/initial_status.json')) if os.path.exists(f'{V}/seeded/initial_status.json') else {}
+        res = []
+        for name, status, reps in rows:
+            meta = json.load(open(f'{V}/seeded/{name}/meta.json'))
+            x = {'seed': name, 'property': meta['property'], 'summary': meta.get('summary', ''), 'initially': initial.get(name, '?')}
+            if status == 'obsolete':
+                x['status'] = 'obsolete: ' + meta['obsolete']
+            elif status == 'patch does not apply':
+                x['status'] = 'patch no longer applies to the repaired tree'
+            else:
+                x.update({'needs_to_manifest': meta.get('needs_to_manifest', ''), 'caught_now': status == 'caught',
+                          'reported_by': [re.sub(r' at .*', '', r) for r in reps][:4]})
+            res.append(x)
+        json.dump(res, open(f'{V}/seeded/RESULTS.json', 'w'), indent=1)
+        with open(f'{V}/seeded/RESULTS.md', 'w') as f:
+            f.write('| seed | property | initially | now | reported by | what it is |\n|---|---|---|---|---|---|\n')
+            for x in res:
+                f.write(f"| {x['seed']} | {x['property']} | {x.get('initially','?')} | {'caught' if x.get('caught_now') else x.get('status','MISSED')} | {'; '.join(x.get('reported_by',[]))[:200]} | {x.get('summary','')[:160]} |\n")
 while not wts.empty():
     wt = wts.get()
     subprocess.run(['git', '-C', '/repo', 'worktree', 'remove', '--force', wt], capture_output=True)
